@@ -9,6 +9,12 @@ def sh(cmd, cwd=None):
 rows = []
 only = [a for a in sys.argv[1:] if not a.startswith("--")]
 run_tests = "--no-tests" not in sys.argv
+# --reuse-tests: take the "existing tests" column of mutants already listed in RESULTS.md (it depends on the mutant only)
+known_tests = {}
+if "--reuse-tests" in sys.argv and os.path.exists("/verif/mutants/RESULTS.md"):
+    for l in open("/verif/mutants/RESULTS.md"):
+        c = [x.strip() for x in l.split("|")]
+        if len(c) > 4 and c[3] in ("pass", "FAIL"): known_tests[c[1]] = c[3]
 if sh("git -C /repo status --porcelain -- src")[1].strip():
     print("refusing: /repo has local modifications"); sys.exit(2)
 for f in sorted(glob.glob("/verif/mutants/*.diff")):
@@ -20,7 +26,9 @@ for f in sorted(glob.glob("/verif/mutants/*.diff")):
         rows.append((name, prop, "patch does not apply", "", "")); continue
     try:
         tests = ""
-        if run_tests:
+        if name in known_tests:
+            tests = known_tests[name]
+        elif run_tests:
             rc, out = sh("cargo test --workspace --no-fail-fast --offline 2>&1 | grep -E '^test result'", cwd="/repo")
             tests = "pass" if out.count(" 0 failed") >= 2 else "FAIL"
         t0 = time.time()
